@@ -97,6 +97,7 @@ type effect struct {
 	replay  bool // performed while the driver replays the log
 	propBef bool // the node was proposer of its current round when the effect started
 	propAft bool
+	note    string
 }
 
 type bcast struct {
@@ -119,10 +120,14 @@ func (b bcast) String() string {
 	return fmt.Sprintf("bcast-precommit(h%d r%d %s)", b.h, b.r, b.id)
 }
 
+// commitRec is one call of the commit callback. persisted is the harness's own model of the block
+// store: OnCommit returned true <=> the block of height h was persisted <=> the commit of h
+// completed; the chain height after the process is (start height - 1) + number of persisted commits.
 type commitRec struct {
-	h   types.Height
-	v   string
-	eff int
+	h         types.Height
+	v         string
+	eff       int
+	persisted bool
 }
 
 type walRec struct {
@@ -148,11 +153,38 @@ type callRec struct {
 	entry   starknet.WALEntry
 }
 
+// How a process lifetime ends (besides running to the end of the script).
+//
+//	stopKill    hard kill before/after effect k: the directory as it is on disk is the crash image;
+//	            nothing the process still does is recorded or reaches the image.
+//	stopCancel  orderly shutdown requested before/after effect k: the driver's context is cancelled at
+//	            that point, the driver finishes whatever it does with a cancelled context, Run returns
+//	            and Close() runs; the directory AFTER Close is the image. A commit callback entered
+//	            with the context already cancelled hands the block over or not (cancelPersists: the
+//	            real listener selects between ctx.Done and the hand-over).
+//	stopHold    effect k is a commit callback; the commit listener holds the hand-over (the block
+//	            writer does not take the block), the shutdown is requested WHILE the callback is
+//	            blocked, OnCommit returns false, Run returns ctx.Err, Close() runs.
+//	stopFail    effect k is a commit callback; the block writer reports a persist error: OnCommit
+//	            returns false with a live context, Run returns an error, Close() runs.
+//
+// graceful: orderly shutdown while the driver is idle, before script position gracefulAt.
+type stopKind int
+
+const (
+	stopKill stopKind = iota
+	stopCancel
+	stopHold
+	stopFail
+)
+
 type crashSpec struct {
-	k          int // 1-based effect number
-	after      bool
-	graceful   bool // orderly shutdown (context cancelled, Close flushes) before script position gracefulAt
-	gracefulAt int
+	k              int // 1-based effect number
+	after          bool
+	kind           stopKind
+	cancelPersists bool // stopCancel: a commit callback entered after the cancel still persists the block
+	graceful       bool // orderly shutdown (context cancelled, Close flushes) before script position gracefulAt
+	gracefulAt     int
 }
 
 func (c *crashSpec) String() string {
@@ -162,10 +194,34 @@ func (c *crashSpec) String() string {
 	if c.graceful {
 		return fmt.Sprintf("graceful-stop before script position %d", c.gracefulAt)
 	}
+	ba := "before"
 	if c.after {
-		return fmt.Sprintf("kill after effect %d", c.k)
+		ba = "after"
 	}
-	return fmt.Sprintf("kill before effect %d", c.k)
+	switch c.kind {
+	case stopCancel:
+		return fmt.Sprintf("shutdown requested (context cancelled) %s effect %d, later commit callbacks persist=%v; Run returns, Close()", ba, c.k, c.cancelPersists)
+	case stopHold:
+		return fmt.Sprintf("commit callback (effect %d) holds the hand-over, shutdown requested while it is blocked: block NOT persisted; Run returns, Close()", c.k)
+	case stopFail:
+		return fmt.Sprintf("commit callback (effect %d) reports a persist error: block NOT persisted; Run returns, Close()", c.k)
+	}
+	return fmt.Sprintf("kill %s effect %d", ba, c.k)
+}
+
+// label names the stop dimension for the evidence.
+func (c *crashSpec) label() string {
+	switch {
+	case c.graceful:
+		return "graceful-idle"
+	case c.kind == stopCancel:
+		return "graceful-mid-call"
+	case c.kind == stopHold:
+		return "inside-commit-callback"
+	case c.kind == stopFail:
+		return "failed-commit"
+	}
+	return "kill"
 }
 
 // trial is what the world outside the process remembers across a crash.
@@ -213,7 +269,9 @@ type rec struct {
 	seq    int
 
 	n            int
-	crashed      bool
+	crashed      bool // killed (stopKill)
+	stopped      bool // the stop point of a stopCancel/stopHold/stopFail spec was reached; the process goes on until Run returns
+	held         bool // the commit callback is blocked right now (stopHold)
 	inReplay     bool
 	propNow      bool
 	curInput     int
@@ -244,6 +302,32 @@ func (r *rec) isCrashed() bool {
 	return r.crashed
 }
 
+// cut: the lifetime was ended by the harness at its stop point (kill or any orderly stop), so what
+// it did is a prefix of what it would have done.
+func (r *rec) cut() bool {
+	r.mu.Lock()
+	defer r.mu.Unlock()
+	return r.crashed || r.stopped
+}
+
+// persistedCommits is the number of blocks the block store (owned by the harness) took.
+func (r *rec) persistedCommits() int {
+	n := 0
+	for _, cm := range r.commits {
+		if cm.persisted {
+			n++
+		}
+	}
+	return n
+}
+
+// stopLocked: an orderly shutdown is requested now. Unlike a kill the process lives on until Run has
+// returned (and closed the log); everything it still does is recorded.
+func (r *rec) stopLocked() {
+	r.stopped = true
+	r.cancel()
+}
+
 // enter numbers an effect. It returns false when the process is dead (the effect must not happen).
 func (r *rec) enter(kind byte, desc string) bool {
 	r.mu.Lock()
@@ -253,8 +337,13 @@ func (r *rec) enter(kind byte, desc string) bool {
 	}
 	r.n++
 	if c := r.cfg.crash; c != nil && !c.graceful && !c.after && c.k == r.n {
-		r.crashLocked()
-		return false
+		switch c.kind {
+		case stopKill:
+			r.crashLocked()
+			return false
+		case stopCancel:
+			r.stopLocked()
+		}
 	}
 	r.effects = append(r.effects, effect{kind: kind, desc: desc, call: len(r.calls) - 1, replay: r.inReplay, propBef: r.propNow, propAft: r.propNow})
 	return true
@@ -268,7 +357,12 @@ func (r *rec) leave() {
 	}
 	r.effects[len(r.effects)-1].propAft = r.propNow
 	if c := r.cfg.crash; c != nil && !c.graceful && c.after && c.k == r.n {
-		r.crashLocked()
+		switch c.kind {
+		case stopKill:
+			r.crashLocked()
+		case stopCancel:
+			r.stopLocked()
+		}
 	}
 }
 
@@ -451,7 +545,11 @@ func (b precB) Broadcast(_ context.Context, m *starknet.Precommit) {
 
 type commitL struct{ r *rec }
 
-func (c commitL) OnCommit(_ context.Context, h types.Height, v V) bool {
+// OnCommit models the commit listener together with the block writer behind it (both outside the
+// code under test). The return value IS the block store: true = block h persisted, the commit of h
+// completed, the chain height is h from here on (also when the process is killed right after:
+// "kill after effect O"); false = block h was not persisted and the chain stays at h-1.
+func (c commitL) OnCommit(ctx context.Context, h types.Height, v V) bool {
 	r := c.r
 	desc := fmt.Sprintf("oncommit(h%d %s)", h, rVal(&v))
 	if !r.enter('O', desc) {
@@ -459,11 +557,38 @@ func (c commitL) OnCommit(_ context.Context, h types.Height, v V) bool {
 	}
 	r.mu.Lock()
 	r.checkLoggedLocked(desc)
+	idx, ei := len(r.commits), len(r.effects)-1
 	r.commits = append(r.commits, commitRec{h: h, v: rVal(&v), eff: r.n})
 	r.propNow = false
+	spec := r.cfg.crash
+	mine := spec != nil && !spec.graceful && spec.k == r.n
+	persisted := true
+	switch {
+	case mine && spec.kind == stopFail:
+		// the block writer reports a persist error; nobody asked the process to stop
+		r.stopped = true
+		persisted = false
+	case mine && spec.kind == stopHold:
+		// nobody takes the block; the callback waits (as driver.commitListener does) until the
+		// shutdown arrives. The harness's main goroutine sees held and cancels (rec.settle).
+		r.held = true
+		r.mu.Unlock()
+		<-ctx.Done()
+		r.mu.Lock()
+		r.held = false
+		persisted = false
+	case ctx.Err() != nil:
+		// entered after the shutdown was requested: the real listener selects between ctx.Done and
+		// the hand-over, both outcomes are possible; the spec says which one this history takes
+		persisted = spec != nil && spec.cancelPersists
+	}
+	r.commits[idx].persisted = persisted
+	if !persisted {
+		r.effects[ei].note = "  <- returned false: block NOT persisted"
+	}
 	r.mu.Unlock()
 	r.leave()
-	return true // "persisted": from here on the chain height is h
+	return persisted
 }
 
 func (c commitL) Listen() <-chan junosync.CommittedBlock { return nil }
@@ -674,17 +799,34 @@ func (r *rec) notePrecommit(in input, msg any) {
 	tr.pcSeen[k][in.from] = true
 }
 
+// settle waits until every goroutine of the process is blocked. If the driver is blocked inside a
+// commit callback that holds the hand-over (stopHold), this is the moment the shutdown is requested.
+func (r *rec) settle() {
+	synctest.Wait()
+	r.mu.Lock()
+	held := r.held
+	if held {
+		r.stopped = true
+	}
+	r.mu.Unlock()
+	if held {
+		r.cancel()
+		synctest.Wait()
+	}
+}
+
 func (r *rec) advance() {
 	s := r.slot.Load()
 	time.Sleep(time.Until(r.t0.Add(time.Duration(s+1) * slotLen)))
-	synctest.Wait()
+	r.settle()
 	r.slot.Store(s + 1)
 }
 
 func runDriver(t *testing.T, cfg *runCfg) *rec {
 	r := &rec{cfg: cfg, curInput: -1, fedSet: map[int]bool{}}
 	synctest.Test(t, func(*testing.T) { r.body() })
-	if c := cfg.crash; c != nil && c.graceful && r.openErr == nil {
+	// orderly stops: the image is the directory after Run has returned and Close() has run
+	if c := cfg.crash; c != nil && (c.graceful || c.kind != stopKill) && r.openErr == nil {
 		if err := copyDir(walstore.DefaultWALDir(cfg.dir), walstore.DefaultWALDir(cfg.image)); err != nil {
 			stats.HarnessError("copy image: %v", err)
 		}
@@ -743,7 +885,7 @@ func (r *rec) body() {
 			return false
 		}
 	}
-	synctest.Wait()
+	r.settle()
 	r.advance()
 
 	feed := func(idx int, msg any) {
@@ -780,7 +922,7 @@ func (r *rec) body() {
 			r.mu.Unlock()
 			r.notePrecommit(in, msg)
 		}
-		synctest.Wait()
+		r.settle()
 		r.mu.Lock()
 		r.curInput = -1
 		r.mu.Unlock()
